@@ -202,3 +202,35 @@ def quantised_and_curved_fanout(H, case):
             prev = got
 
 
+
+
+@contract("delivery_is_history_independent", ["C20"], targets=_T[:2], cases=lambda tier: [("Amplifier.volume", ("Amplifier", "volume")), ("MultiSynth.transpose", ("MultiSynth", "transpose"))])
+def delivery_is_history_independent(H, case):
+    """The value delivered for (input, gain, window) does not depend on what the same MultiCtl
+    delivered before: after a first delivery with one window orientation, changing the window (also to
+    the opposite orientation), the gain and the input gives exactly what a fresh MultiCtl delivers."""
+    cname, name = case
+    t = K.class_by_name(cname).controllers[name].value_type
+    wtop = (t.max - t.min) if isinstance(t, CompactRange) else 32768
+    v1, v2 = H.int("v1", 0, 32768), H.int("v2", 0, 32768)
+    g1, g2 = H.int("g1", 0, 1024), H.int("g2", 0, 1024)
+    a1, b1 = H.int("a1", 0, wtop), H.int("b1", 0, wtop)
+    a2, b2 = H.int("a2", 0, wtop), H.int("b2", 0, wtop)
+    o1 = H.choice("first_window", ["normal", "reversed"])
+    o2 = H.choice("second_window", ["normal", "reversed"])
+    H.assume(a1 <= b1 if o1 == "normal" else a1 > b1)
+    H.assume(a2 <= b2 if o2 == "normal" else a2 > b2)
+    p, mc, target = _rig(cname, name)
+    K.strict()
+    mc.controller_values["quantization"] = 32768
+    mc.controller_values["gain"] = g1
+    mc.mappings.values[0].min, mc.mappings.values[0].max = a1, b1
+    exc, _ = H.raises(H.setattr, mc, "value", v1)
+    mc.controller_values["gain"] = g2
+    mc.mappings.values[0].min, mc.mappings.values[0].max = a2, b2
+    exc2, _ = H.raises(H.setattr, mc, "value", v2)
+    got = target.controller_values[name]
+    exc3, want, _t = _deliver(H, cname, name, v2, g2, a2, b2)
+    H.check("no_delivery_raises", exc is None and exc2 is None and exc3 is None)
+    H.check("same_as_fresh_multictl", H.eq(got, want))
+    H.cover("reached")
